@@ -15,7 +15,7 @@ GStep ==
     /\ \/ \E s \in Scopes, e \in ExpSet : /\ NExp(s) < MaxExp /\ (LateExpect \/ NCalls = 0)
                                           /\ CopiersPresent(s, e) /\ ComparatorsPresent(s, e) /\ Unambiguous(WouldBe(s, e)) /\ Expect(s, e)
                                           /\ Rec([op |-> "expect", s |-> s, e |-> e])
-       \/ \E s \in Scopes, tn \in ObjTNames, md \in CmpModes : /\ NInst(s) < MaxInst /\ InstallComparator(s, tn, md)
+       \/ \E s \in Scopes, tn \in ObjTNames, md \in CmpExplored : /\ NInst(s) < MaxInst /\ InstallComparator(s, tn, md)
                                                                 /\ Rec([op |-> "installcmp", s |-> s, tn |-> tn, md |-> md])
        \/ \E s \in Scopes, tn \in OTypes \ {"raw"}, md \in CpyModes : /\ NInst(s) < MaxInst /\ InstallCopier(s, tn, md)
                                                                        /\ Rec([op |-> "installcpy", s |-> s, tn |-> tn, md |-> md])
